@@ -131,7 +131,7 @@ def handleSrv (allScripted : Bool) (budget : Option Nat) (sm steps perm peer : S
   let r := match budget with
     | none => serverSession mechs evs
     | some b => serverSessionW mechs b evs
-  pure s!"{showBool r.authn} {r.err.toString} {joinList (r.sent.map showSSent)} {joinList (r.perms.map showPerm)}"
+  pure s!"{showBool r.authn} {r.err.toString} {joinList (r.sent.map showSSent)} {joinList (r.perms.map showPerm)} adv:{joinList ((advertised mechs).map encName)}"
 
 def parseCred (s : String) : Option (Bytes × Bytes) :=
   match s.splitOn "/" with
